@@ -74,6 +74,7 @@ class Index:
         self.stmt_owner = {}  # lambda closure record id -> enclosing function id
         self.docs = docs
         self.tops = []
+        self.lambdas = []
         for d in docs:
             self.cur_file = None
             self.cur_line = None
@@ -118,6 +119,9 @@ class Index:
             if kind in DECL_KINDS or kind in ('VarDecl', 'FieldDecl', 'TypeAliasDecl', 'TypedefDecl', 'ParmVarDecl', 'EnumConstantDecl'):
                 if pdecl is not None and (nid not in self.parent or n.get('inner')):
                     self.parent[nid] = pdecl
+        if kind == 'LambdaExpr':
+            n['_owner'] = pdecl
+            self.lambdas.append(n)
         np = nid if kind in DECL_KINDS else pdecl
         for c in n.get('inner', []) or []:
             self._walk(c, np)
@@ -153,6 +157,12 @@ class Unit:
         self.ix = Index(docs)
         self.cfg = cfg
         self.aliases = cfg.get('aliases', {})
+        self.alias_rules = [(re.compile(a), b) for a, b in cfg.get('alias_rules', [])]
+        self.rec_cname_cache = {}
+        self.cur_lam_env = {}
+        self.fn_lam_env = {}
+        self.closure_by_id = {}
+        self.closure_by_loc = {}
         self.body_re = [re.compile(x) for x in cfg.get('bodies', [])]
         self.extern_re = [re.compile(x) for x in cfg.get('externs', [])]
         self.records = {}       # canonical name -> node
@@ -356,6 +366,12 @@ class Unit:
                 r = self.entity_value(c, s)
                 if r is not None:
                     return r
+            if sn['kind'] in FUNC_KINDS:
+                for c in walk(sn):
+                    if c.get('kind') in ('TypeAliasDecl', 'TypedefDecl') and c.get('name') == name:
+                        r = self.entity_value(c, s)
+                        if r is not None:
+                            return r
             if sn['kind'] in REC_KINDS and sn.get('name') == name:
                 return ('t', ('n', self.decl_comps(s)))
         for d in self.ix.tops:
@@ -417,8 +433,12 @@ class Unit:
 
     def resolve(self, t, ctx, as_arg=False):
         k = t[0]
-        if k in ('b', 'v', 'lam'):
+        if k in ('b', 'v'):
             return t
+        if k == 'lam':
+            if len(t) == 3:
+                return t
+            return ('lam', t[1], self.closure_for_loc(t[1]))
         if k in ('p', 'r', 'rr', 'c'):
             return (k, self.resolve(t[1], ctx))
         if k == 'a':
@@ -789,25 +809,74 @@ class Emitter(Unit):
         comps = t[1]
         q = '::'.join(c[0] for c in comps)
         canon = T.show(t)
-        if canon in self.aliases:
-            return self.aliases[canon]
-        if q.startswith('std::'):
-            args = comps[-1][1] or []
-            short = q.replace('::', '_')
-            if q in ('std::array', 'std::vector', 'std::pair', 'std::optional', 'std::tuple'):
-                return short + '_' + '_'.join(self.tmangle(a) for a in args)
-            if any(q.startswith(x) for x in STD_EMPTY_TAGS):
-                return 'std_empty'
-            raise Unsupported('unmodelled std type ' + canon)
-        if comps[-1][0] == '(lambda)':
-            rec = self.find_closure(t)
-            return rec['_cname']
-        base = mangle(q)
-        owner = self.used_names.setdefault(('rec', base), canon)
-        if owner != canon:
-            base = base + '__' + hashlib.sha1(canon.encode()).hexdigest()[:8]
-            self.used_names[('rec', base)] = canon
-        return base
+        if canon in self.rec_cname_cache:
+            return self.rec_cname_cache[canon]
+        name = None
+        for rx, nm in self.alias_rules:
+            if rx.search(canon):
+                name = nm
+                break
+        if name is None:
+            if q.startswith('std::'):
+                args = comps[-1][1] or []
+                short = q.replace('::', '_')
+                if q in ('std::array', 'std::vector', 'std::pair', 'std::optional', 'std::tuple'):
+                    name = short + '_' + '_'.join(self.tmangle(a) for a in args)
+                elif any(q.startswith(x) for x in STD_EMPTY_TAGS):
+                    name = 'std_empty'
+                else:
+                    raise Unsupported('unmodelled std type ' + canon)
+            else:
+                base = mangle(q)
+                same = self.rec_by_tmpl.get(q, [])
+                if len(same) <= 1:
+                    name = base
+                else:
+                    name = mangle(self.abbr(t))
+                    others = [T.show(('n', cc)) for cc, n in same if mangle(self.abbr(('n', cc))) == name]
+                    if len(set(others)) > 1:
+                        name = base + '__' + hashlib.sha1(canon.encode()).hexdigest()[:8]
+        owner = self.used_names.setdefault(('rec', name), canon)
+        if owner != canon and name != 'std_empty':
+            name = name + '__' + hashlib.sha1(canon.encode()).hexdigest()[:8]
+            self.used_names[('rec', name)] = canon
+        self.rec_cname_cache[canon] = name
+        return name
+
+    def abbr(self, t):
+        k = t[0]
+        if k == 'n':
+            out = []
+            for i, (nm, args) in enumerate(t[1]):
+                if args:
+                    out.append(nm + '_' + '_'.join(self.abbr_arg(a) for a in args))
+                else:
+                    out.append(nm)
+            return '::'.join(out)
+        return self.abbr_arg(t)
+
+    def abbr_arg(self, t):
+        k = t[0]
+        if k == 'n':
+            nm, args = t[1][-1]
+            if args:
+                return nm + '_' + '_'.join(self.abbr_arg(a) for a in args)
+            return nm
+        if k == 'b':
+            return t[1].replace('unsigned ', 'u').replace(' ', '')
+        if k == 'v':
+            return str(t[1]).replace('-', 'm')
+        if k in ('c',):
+            return self.abbr_arg(t[1])
+        if k == 'p':
+            return self.abbr_arg(t[1]) + 'p'
+        if k in ('r', 'rr'):
+            return self.abbr_arg(t[1]) + 'r'
+        if k == 'lam':
+            return 'lam'
+        if k == 'a':
+            return self.abbr_arg(t[1]) + 'a%s' % t[2]
+        return 'x'
 
     def tmangle(self, t):
         k = t[0]
@@ -826,15 +895,119 @@ class Emitter(Unit):
         if k == 'a':
             return self.tmangle(t[1]) + '_a%s' % t[2]
         if k == 'lam':
-            return 'lam'
+            return self.closure_cname(t[2]) if len(t) == 3 else 'lam'
         raise Unsupported('tmangle ' + repr(t))
 
     def is_record(self, t):
         t = T.strip_const(t)
         return t[0] == 'n'
 
-    def find_closure(self, t):
-        raise Unsupported('closure types not reached yet: ' + T.show(t))
+    def closure_table(self):
+        if getattr(self, '_closure_table', None) is None:
+            tab = {}
+            for le in self.ix.lambdas:
+                owner = le.get('_owner')
+                if owner is None or self.in_template_pattern(owner) or self.is_pattern_fn(owner):
+                    continue
+                m = re.match(r'\(lambda at (.*)\)', le['type']['qualType'])
+                if not m:
+                    continue
+                rec = le['inner'][0]
+                le['_recid'] = rec['id']
+                tab.setdefault(m.group(1), []).append(le)
+                self.closure_by_id[rec['id']] = le
+            self._closure_table = tab
+        return self._closure_table
+
+    def is_pattern_fn(self, fid):
+        """function that is itself an uninstantiated template pattern, or nested in one"""
+        while fid is not None:
+            n = self.ix.get(fid)
+            if n['kind'] in FUNC_KINDS:
+                t = n.get('type', {}).get('qualType', '')
+                p = self.ix.parent.get(fid)
+                if p is not None and self.ix.get(p)['kind'] == 'FunctionTemplateDecl' and not any(c.get('kind') == 'TemplateArgument' for c in n.get('inner', []) or []):
+                    return True
+            if n['kind'] == 'CXXRecordDecl' and self.ix.parent.get(fid) is not None and self.ix.get(self.ix.parent.get(fid))['kind'] == 'ClassTemplateDecl':
+                return True
+            fid = self.ix.parent.get(fid)
+        return False
+
+    def closure_for_loc(self, loc):
+        tab = self.closure_table()
+        if loc in self.cur_lam_env:
+            return self.cur_lam_env[loc]
+        c = tab.get(loc, [])
+        ids = sorted({le['_recid'] for le in c})
+        if len(ids) == 1:
+            return ids[0]
+        if not ids:
+            raise Unsupported('closure type (lambda at %s) has no instantiated LambdaExpr in the dump' % loc)
+        raise Unsupported('ambiguous closure type (lambda at %s): %d instantiations and no binding from a call site' % (loc, len(ids)))
+
+    def closure_cname(self, recid):
+        self.closure_table()
+        le = self.closure_by_id[recid]
+        if '_cname' in le:
+            return le['_cname']
+        owner = le['_owner']
+        while self.ix.get(owner)['kind'] not in FUNC_KINDS:
+            owner = self.ix.parent.get(owner)
+        # ordinal among the lambdas of the owner, in source order
+        sibs = [x for x in self.ix.lambdas if x.get('_owner') == le['_owner']]
+        k = [x['inner'][0]['id'] for x in sibs].index(recid)
+        on = self.ix.get(owner)
+        if not on.get('name') or on.get('name') == 'operator()' and not self.ix.get(self.ix.parent.get(owner) if self.ix.get(self.ix.parent.get(owner))['kind'] != 'FunctionTemplateDecl' else self.ix.parent.get(self.ix.parent.get(owner))).get('name'):
+            pass
+        base = self.func_cname(owner)
+        le['_cname'] = '%s__lam%d' % (base, k)
+        self.ix.get(recid)['_cname'] = le['_cname']
+        le['inner'][0]['_cname'] = le['_cname']
+        return le['_cname']
+
+    def closure_fields(self, recid):
+        """[(fieldname, mode, type, init-expr-node)]"""
+        le = self.closure_by_id[recid]
+        rec = le['inner'][0]
+        fields = [c for c in rec.get('inner', []) or [] if c.get('kind') == 'FieldDecl']
+        inits = [c for c in le['inner'][1:] if c.get('kind') != 'CompoundStmt']
+        if len(inits) == 1 and inits[0].get('kind') == 'ParenListExpr':
+            inits = inits[0].get('inner', [])
+        if len(inits) != len(fields):
+            raise Unsupported('lambda capture list shape (%d fields, %d initialisers) at %s' % (len(fields), len(inits), le['type']['qualType']))
+        out = []
+        owner = le['_owner']
+        for i, (f, e) in enumerate(zip(fields, inits)):
+            fts = f['type']['qualType'].strip()
+            e0 = e
+            while e0.get('kind') in ('ImplicitCastExpr', 'ParenExpr', 'CXXConstructExpr', 'ExprWithCleanups') and e0.get('inner'):
+                e0 = e0['inner'][0]
+            if e0.get('kind') == 'CXXThisExpr':
+                out.append(('cap_this', 'this', self.ntype(e0, owner), e0, None))
+            elif e0.get('kind') == 'DeclRefExpr':
+                mode = 'ref' if fts.endswith('&') else 'copy'
+                ty = T.strip_ref(self.ntype(e0, owner))
+                out.append(('cap_%s' % e0['referencedDecl']['name'], mode, ty, e, e0['referencedDecl']['id']))
+            else:
+                raise Unsupported('lambda init-capture of kind %s' % e0.get('kind'))
+        return out
+
+    def need_closure(self, recid):
+        cn = self.closure_cname(recid)
+        if cn in self.type_defs:
+            return cn
+        self.type_defs[cn] = None
+        fl = []
+        for name, mode, ty, e, vid in self.closure_fields(recid):
+            if mode == 'ref':
+                fl.append(self.ctype(('p', ty), name))
+            else:
+                fl.append(self.ctype(self.unconst_deep(ty), name))
+        if not fl:
+            fl.append('char _empty')
+        self.type_defs[cn] = 'struct %s { %s; };' % (cn, '; '.join(fl))
+        self.type_order.append(cn)
+        return cn
 
     def ctype(self, t, name=''):
         """C declarator for resolved type t and identifier name."""
@@ -863,7 +1036,9 @@ class Emitter(Unit):
         if k == 'n':
             return self.record_ctype(t) + sp
         if k == 'lam':
-            raise Unsupported('bare lambda type')
+            if len(t) < 3:
+                raise Unsupported('unresolved lambda type')
+            return 'struct ' + self.need_closure(t[2]) + sp
         raise Unsupported('ctype ' + repr(t))
 
     def record_ctype(self, t):
@@ -956,7 +1131,7 @@ class Emitter(Unit):
             recn = self.ix.get(recid)
             if not recn.get('name'):
                 # closure call operator
-                base = recn['_cname'] + '__call'
+                base = self.closure_cname(recid) + '__call'
             else:
                 rt = ('n', self.decl_comps(recid))
                 rcn = self.record_cname(rt)
@@ -969,18 +1144,27 @@ class Emitter(Unit):
                     nm = 'op_' + mangle({'operator=': 'assign', 'operator()': 'call', 'operator[]': 'index', 'operator<<': 'shl',
                                          'operator bool': 'bool', 'operator*': 'deref'}.get(nm, nm[8:]))
                 base = rcn + '__' + nm
-            sibs = [c for c in self.siblings(fid) if c.get('name') == f.get('name') and c['kind'] == f['kind']]
+            if not recn.get('name'):
+                sibs = []
+                for c in walk(recn):
+                    if c.get('kind') == 'CXXMethodDecl' and c.get('name') == 'operator()' and has_body(c) and \
+                            (any(x.get('kind') == 'TemplateArgument' for x in c.get('inner', [])) or self.ix.get(self.ix.parent.get(c['id']))['kind'] != 'FunctionTemplateDecl'):
+                        sibs.append(c)
+                comps = comps[:-1] + [(comps[-1][0], None)]
+            else:
+                sibs = [c for c in self.siblings(fid) if c.get('name') == f.get('name') and c['kind'] == f['kind']]
         else:
             base = mangle('::'.join(c[0] for c in comps))
             sibs = [c for c in self.siblings(fid) if c.get('name') == f.get('name')]
         name = base
         if comps[-1][1]:
             name += '__' + '_'.join(self.tmangle(a) for a in comps[-1][1])
+        sibs = [x for x in sibs if not x.get('isImplicit')]
         if len(sibs) > 1:
             # overloads: const / non-const pair -> __c ; otherwise parameter types
             sigs = set()
-            for s in sibs:
-                sigs.add(re.sub(r'\)\s*const.*$', ')', s.get('type', {}).get('qualType', '')))
+            for x in sibs:
+                sigs.add(self.param_sig(x.get('type', {}).get('qualType', '')))
             if len(sigs) < len(sibs) and self.is_const_method(f):
                 name += '__c'
             if len(sigs) > 1:
@@ -992,6 +1176,22 @@ class Emitter(Unit):
             self.used_names[('fn', name)] = fid
         self.func_names[fid] = name
         return name
+
+    def param_sig(self, ts):
+        # text of the parameter list of a function type string "ret (params) const"
+        depth = 0
+        end = None
+        for i in range(len(ts) - 1, -1, -1):
+            ch = ts[i]
+            if ch == ')':
+                if depth == 0 and end is None:
+                    end = i
+                depth += 1
+            elif ch == '(':
+                depth -= 1
+                if depth == 0:
+                    return re.sub(r'\s+', ' ', ts[i:end + 1])
+        return ts
 
     def siblings(self, fid):
         p = self.ix.parent.get(fid)
@@ -1106,7 +1306,8 @@ class Emitter(Unit):
                 rtype = ('n', self.decl_comps(recid))
                 st = self.record_ctype(rtype)
             else:
-                st = 'struct ' + recn['_cname']
+                self.closure_table()
+                st = 'struct ' + self.need_closure(recid)
             params.append(('const ' if self.is_const_method(f) else '') + st + ' *self')
         i = 0
         for c in f.get('inner', []) or []:
@@ -1130,6 +1331,7 @@ class Emitter(Unit):
         cname = self.func_cname(fid)
         if cname in self.func_protos:
             return cname
+        self.fn_lam_env[fid] = dict(self.cur_lam_env)
         rts, cname, params, isref = self.signature(fid)
         self.func_protos[cname] = '%s %s(%s)' % (rts, cname, ', '.join(params) or 'void')
         self.func_info[cname] = {'qual': self.qual_name(fid), 'file': f.get('_file'), 'line': f.get('_line'),
@@ -1151,6 +1353,18 @@ class Emitter(Unit):
         cname = self.func_cname(fid)
         fc = FnCtx(fid, cname)
         fc.ret_is_ref = self.func_info[cname]['returns_ref']
+        self.cur_lam_env = dict(self.fn_lam_env.get(fid, {}))
+        recid = self.ix.parent.get(fid)
+        if recid is not None and self.ix.get(recid)['kind'] == 'FunctionTemplateDecl':
+            recid = self.ix.parent.get(recid)
+        if recid is not None and self.ix.get(recid)['kind'] == 'CXXRecordDecl' and not self.ix.get(recid).get('name'):
+            self.closure_table()
+            fc.captures = {}
+            for name, mode, ty, init, vid in self.closure_fields(recid):
+                if mode == 'this':
+                    fc.this_capture = name
+                else:
+                    fc.captures[vid] = (mode, name)
         self.fc_stack = getattr(self, 'fc_stack', [])
         self.fc_stack.append(fc)
         try:
@@ -1768,10 +1982,11 @@ class Emitter(Unit):
             if len(args) == 1:
                 return self.expr(args[0], fc)
             raise Unsupported('implicit constructor with several arguments')
+        cargs = self.call_args(ctor, args, fc)
         cname = self.request(ctor['id'])
         if target is None:
-            raise Unsupported('user constructor call without a target object')
-        cargs = self.call_args(ctor, args, fc)
+            t = self.new_temp(fc, ty)
+            return '(%s(%s), %s)' % (cname, ', '.join(['&' + t] + cargs), t)
         return '@stmt:%s(%s);' % (cname, ', '.join(['&' + target if not target.startswith('(*') else self.addr_of_str(target)] + cargs))
 
     def all_trivial_members(self, rec):
@@ -1865,8 +2080,9 @@ class Emitter(Unit):
         q = self.callee_qual(r, fd, c)
         if q.startswith('std::') or fd is None:
             return self.std_call(q, e, args, fc, r)
+        cargs = self.call_args(fd, args, fc)
         cname = self.request(r['id'])
-        s = '%s(%s)' % (cname, ', '.join(self.call_args(fd, args, fc)))
+        s = '%s(%s)' % (cname, ', '.join(cargs))
         if self.func_info[cname]['returns_ref']:
             return '(*%s)' % s
         return s
@@ -2077,7 +2293,22 @@ class Emitter(Unit):
         raise Unsupported('std algorithm %s' % name)
 
     def e_LambdaExpr(self, e, fc):
-        raise Unsupported('lambda at %s:%s' % (e.get('_file'), e.get('_line')))
+        self.closure_table()
+        recid = e['inner'][0]['id']
+        if recid not in self.closure_by_id:
+            raise Unsupported('lambda not in closure table at %s:%s' % (e.get('_file'), e.get('_line')))
+        m = re.match(r'\(lambda at (.*)\)', e['type']['qualType'])
+        self.cur_lam_env[m.group(1)] = recid
+        cn = self.need_closure(recid)
+        items = []
+        for name, mode, ty, init, vid in self.closure_fields(recid):
+            if mode == 'this':
+                items.append('.%s = %s' % (name, self.e_CXXThisExpr(init, fc)))
+            elif mode == 'ref':
+                items.append('.%s = %s' % (name, self.addr(init, fc)))
+            else:
+                items.append('.%s = %s' % (name, self.expr(init, fc)))
+        return '((struct %s){%s})' % (cn, ', '.join(items) or '0')
 
     def e_CXXConstructExpr(self, e, fc):
         r = self.construct(e, fc, None)
